@@ -642,6 +642,197 @@ def stage_ranges(ctx, n):
         ctx.broke('vacuity:ranges-paging', 'no case needed more than one ranges request')
 
 
+class _NullLog:
+    def get_child(self, *a, **k):
+        return self
+
+    def __getattr__(self, name):
+        return lambda *a, **k: None
+
+
+def real_server_handler():
+    """A real SFTPServerHandler without a connection, for calling its ranges request processing directly.
+    None if it cannot be built that way any more (then only the end-to-end sparse transfers cover it)."""
+    try:
+        from asyncssh import sftp
+        from asyncssh.packet import SSHPacket, String, UInt64
+
+        class R:
+            logger = _NullLog()
+        h = sftp.SFTPServerHandler(None, R(), None, 3)
+        h._file_handles
+        h._process_ranges
+    except Exception:
+        return None
+
+    async def call(ext, size, off, ln):
+        h._file_handles[b'h'] = D.ExtentFile(ext, size)
+        try:
+            r = await h._process_ranges(SSHPacket(String(b'h') + UInt64(off) + UInt64(ln)))
+        except sftp.SFTPEOFError:
+            return None
+        return [(int(a), int(b)) for a, b in r.ranges], bool(r.at_end)
+    return call
+
+
+class ServerRangesHandler:
+    """client-side handler.request_ranges answered by the real server-side _process_ranges"""
+
+    def __init__(self, call, ext, size):
+        import asyncssh
+        self.call, self.ext, self.size = call, ext, size
+        self.requests = 0
+        self.limits = asyncssh.SFTPLimits(0, 1 << 22, 1 << 22, 0)
+
+    async def request_ranges(self, handle, offset, length):
+        from asyncssh import sftp
+        self.requests += 1
+        r = await self.call(self.ext, self.size, offset, length)
+        if r is None:
+            raise sftp.SFTPEOFError()
+        return sftp.SFTPRanges(r[0], r[1])
+
+
+def layout_n(rng, n):
+    ext, pos = [], rng.choice([0, 0, 2])
+    for _ in range(n):
+        ln = rng.randint(1, 3)
+        ext.append((pos, pos + ln))
+        pos += ln + rng.randint(1, 3)
+    last = ext[-1][1] if ext else 0
+    return ext, last + rng.choice([0, 0, 3])
+
+
+def stage_server_ranges(ctx):
+    """The ranges request/reply loop with the real server handler (128 ranges per reply): extent counts on both
+    sides of every batching boundary, start offsets 0, at continuation points and arbitrary."""
+    call = real_server_handler()
+    if call is None:
+        ctx.cov['oracle']['server_ranges'] = 'unavailable (SFTPServerHandler cannot be driven directly)'
+        return
+    from asyncssh import sftp
+    rng = random.Random(ctx.rng.getrandbits(64))
+    c1, c2 = [], []
+    counts = [0, 1, 2, 127, 128, 129, 255, 256, 257, 384, 385, 513]
+    if ctx.tier == 'thorough':
+        counts += [130, 254, 383, 386, 512, 640, 641]
+    multi = 0
+    for n in counts:
+        ext, size = layout_n(rng, n)
+        full = sshutil.run(D.real_request_ranges(ext, size, 0, size))
+        offs = {0}
+        for k in (1, 127, 128, 129, 256, 257):
+            if len(full) >= k:
+                offs.add(full[k - 1][0] + full[k - 1][1])
+        if size:
+            offs.add(rng.randint(0, size))
+        for off in sorted(offs):
+            ln = size - off
+            got = sshutil.run(call(ext, size, off, ln))
+            c1.append('(128%%nat, %s, %d, %d, %s)' % (coq_pairs(ext), off, ln, 'None' if got is None else
+                                                     '(Some (%s, %s))' % (coq_pairs(got[0]), cbool(got[1]))))
+            h = ServerRangesHandler(call, ext, size)
+            f = sftp.SFTPClientFile(h, b'h', False, None, 'strict', 0, 1)
+
+            async def collect():
+                out = []
+                async for r in f.request_ranges(off, ln):
+                    out.append((int(r[0]), int(r[1])))
+                    if len(out) > 5000:
+                        break
+                return out
+            got2 = sshutil.run(collect())
+            multi += h.requests > 2
+            want = sshutil.run(D.real_request_ranges(ext, size, off, ln))
+            ctx.note_case(('server_ranges', n, off), nontrivial=n > 128)
+            c2.append('(128%%nat, %s, %d, %d, %s)' % (coq_pairs(ext), off, ln, coq_pairs(got2)))
+            if got2 != want:
+                lost = len(want) - len(got2)
+                ctx.failing_input(f'ranges of a file with {n} data extents requested from offset {off}: the request/reply loop '
+                                  f'(real client iteration against the real server handler) returned {len(got2)} ranges, the file '
+                                  f'has {len(want)} from there' + (f' ({lost} lost at the end)' if lost > 0 else ''),
+                                  {'kind': 'server_ranges', 'extents': ext, 'size': size, 'off': off})
+    ctx.cov['oracle']['server_ranges'] = {'layouts': len(counts), 'cases': len(c1), 'needed_3_or_more_requests': multi}
+    bad = ctx.coq_cases('server_ranges', IMPORTS, 'chk_server_ranges', c1,
+                        ty='nat * list (Z * Z) * Z * Z * option (list (Z * Z) * bool)', shard=12)
+    if bad:
+        ctx.broke('correspondence:server_ranges', f'{len(bad)} of {len(c1)} differ; first: {c1[bad[0]][-300:]}')
+    bad = ctx.coq_cases('client_server_ranges', IMPORTS, 'chk_client_ranges_from', c2,
+                        ty='nat * list (Z * Z) * Z * Z * list (Z * Z)', shard=12)
+    if bad:
+        ctx.broke('correspondence:client_server_ranges', f'{len(bad)} of {len(c2)} differ; first: {c2[bad[0]][-300:]}')
+    if not multi:
+        ctx.broke('vacuity:server-ranges', 'no case needed three or more ranges requests')
+
+
+# ---------------------------------------------------------------------------------------------
+# stage 2b: open dispositions (what a destination holds right after it was opened)
+
+def stage_open(ctx):
+    import asyncssh
+    from asyncssh import sftp
+    tmp = os.path.realpath(tempfile.mkdtemp(prefix='c12o-', dir='/var/tmp'))
+    try:
+        srv = asyncssh.SFTPServer(_StubChan())
+        path = os.path.join(tmp, 'f').encode()
+        befores = [None, b'', b'stale tail']
+
+        def observe(fn):
+            res = []
+            for before in befores:
+                if os.path.lexists(path):
+                    os.remove(path)
+                if before is not None:
+                    with open(path, 'wb') as f:
+                        f.write(before)
+                try:
+                    fo = fn()
+                    fo.close()
+                    with open(path, 'rb') as f:
+                        got = f.read()
+                except (OSError, asyncssh.SFTPError, ValueError):
+                    got = None
+                res.append((before, got))
+            return res
+        c0, c3, c56 = [], [], []
+        for pflags in range(64):
+            acc, fl = sftp._pflags_to_flags(pflags) if hasattr(sftp, '_pflags_to_flags') else (None, None)
+            if acc is not None:
+                c0.append('(%d, (%d, %d))' % (pflags, acc, fl))
+            for before, got in observe(lambda: srv.open(path, pflags, asyncssh.SFTPAttrs())):
+                c3.append('(%d, %s, %s)' % (pflags, core.copt(before, zl), core.copt(got, zl)))
+                ctx.note_case(('open3', pflags, before), nontrivial=before is not None)
+                if pflags == 2 + 8 + 16 and got != b'':
+                    ctx.failing_input(f'SFTPServer.open with the flags of mode "wb" on a file holding {before!r} left {got!r}',
+                                      {'kind': 'open_disposition', 'api': 'open', 'pflags': pflags})
+            pairs = set()
+            if acc is not None:
+                pairs.add((acc, fl))
+            for a in (1, 2, 3, 6):
+                pairs.add((a, pflags % 16))          # every disposition 0..7, with and without APPEND_DATA
+            for a, f_ in sorted(pairs):
+                for before, got in observe(lambda: srv.open56(path, a, f_, asyncssh.SFTPAttrs())):
+                    c56.append('(%d, %d, %s, %s)' % (a, f_, core.copt(before, zl), core.copt(got, zl)))
+                    ctx.note_case(('open56', a, f_, before), nontrivial=before is not None)
+                    if (a, f_) == (acc, fl) and pflags == 2 + 8 + 16 and got != b'':
+                        ctx.failing_input(f'SFTPServer.open56 with the access/disposition of mode "wb" (CREATE_TRUNCATE) on a '
+                                          f'file holding {before!r} left {got!r}',
+                                          {'kind': 'open_disposition', 'api': 'open56', 'access': a, 'flags': f_})
+    finally:
+        shutil.rmtree(tmp, ignore_errors=True)
+    for name, chk, cases, ty in (('pflags_to_flags', 'chk_pflags_to_flags', c0, 'Z * (Z * Z)'),
+                                 ('open_v3', 'chk_open_v3', c3, 'Z * option bytes * option bytes'),
+                                 ('open_v56', 'chk_open_v56', sorted(set(c56)), 'Z * Z * option bytes * option bytes')):
+        bad = ctx.coq_cases(name, IMPORTS, chk, cases, ty=ty)
+        if bad:
+            ctx.broke('correspondence:' + name, f'{len(bad)} of {len(cases)} differ; first: {cases[bad[0]]}')
+
+
+class _StubChan:
+    def get_connection(self):
+        return None
+
+
 # ---------------------------------------------------------------------------------------------
 # stage 3: file object offset tracking
 
@@ -1137,22 +1328,36 @@ async def e2e(ctx, tmp, replay=None):
         # sparse files on a real file system
         if fs_supports_holes(srv):
             layouts = ['DHHD', 'HDDH', 'DHHH', 'HHHH', 'HDHDHD', 'D', 'DH' * 140, 'HD' * 3 + 'HH']
+            # extent counts on both sides of the batching of the ranges protocol (128 ranges per reply)
+            big = ['DH' * 257, 'HD' * 385 + 'H']
             if thorough:
                 layouts += [''.join(rng.choice('DH') for _ in range(rng.randint(1, 12))) for _ in range(40)]
-            for lay in layouts:
-                for op in ('get', 'put', 'copy'):
+                big += ['DH' * n for n in (127, 128, 129, 255, 256, 384, 513)]
+            h_ = getattr(sftp, '_handler', None)
+            can_force = h_ is not None and hasattr(h_, '_supports_copy_data')
+            for lay in layouts + big:
+                for op in (('get', 'pcopy') if lay in big else ('get', 'put', 'copy', 'pcopy')):
+                    if op == 'pcopy' and not can_force:
+                        continue
                     serial += 1
                     name = 's%d' % serial
                     src_dir, dst_dir = (srv, loc) if op == 'get' else (loc, srv) if op == 'put' else (srv, srv)
                     sp, dp = os.path.join(src_dir, name), os.path.join(dst_dir, name + '.out')
                     content = write_layout(sp, rng, lay)
-                    reset(short=(op != 'copy'), salt=serial)
+                    reset(short=(op != 'copy' and lay not in big), salt=serial)
                     err = None
                     try:
                         if op == 'get':
                             await sftp.get('/' + name, dp, sparse=True, block_size=rng.choice([1000, 4096, 16384]))
                         elif op == 'put':
                             await sftp.put(sp, '/' + name + '.out', sparse=True, block_size=rng.choice([1000, 4096, 16384]))
+                        elif op == 'pcopy':
+                            # server-to-server copy through the client (no copy-data): ranges come from the server
+                            h_._supports_copy_data = False
+                            try:
+                                await sftp.copy('/' + name, '/' + name + '.out', sparse=True, block_size=16384)
+                            finally:
+                                h_._supports_copy_data = True
                         else:
                             await sftp.copy('/' + name, '/' + name + '.out', sparse=True)
                     except (asyncssh.SFTPError, OSError) as e:
@@ -1171,9 +1376,13 @@ async def e2e(ctx, tmp, replay=None):
                               'source_len': len(content), 'destination_len': None if got is None else len(got)}
                         if lay.endswith('H') and got is not None and content.startswith(got):
                             rp['class'] = 'sparse_trailing_hole'
+                        if got is not None and len(got) == len(content):
+                            first = next(i for i in range(len(got)) if got[i] != content[i])
+                            how = f'differs from the source from byte {first} (block {first // 4096}) on, sizes are equal'
+                        else:
+                            how = f'has {None if got is None else len(got)} bytes, the source {len(content)}'
                         report(ctx, 'e2e', f'sparse {op} of a file with 4096-byte blocks {short_lay} (D=data, H=hole) returned '
-                               f'normally but the destination has {None if got is None else len(got)} bytes, '
-                               f'the source {len(content)}', rp)
+                               f'normally but the destination {how}', rp)
             stats['sparse'] = 'run'
         else:
             stats['sparse'] = 'file system without SEEK_HOLE support: skipped'
@@ -1442,6 +1651,134 @@ def stage_tree(ctx, only=None):
             ctx.broke('correspondence:copy_total', f'{len(bad)} of {len(cases)} differ; first: {cases[bad[0]]}')
 
 
+# ---------------------------------------------------------------------------------------------
+# stage 6: every negotiable SFTP version, destinations that already exist
+
+PRE_KINDS = ['absent', 'shorter', 'equal', 'longer', 'readonly', 'dir', 'symlink']
+VER_OPS = ['put', 'copy', 'pcopy', 'get', 'open_wb']
+
+
+async def e2e_versions(ctx, tmp, only=None):
+    import asyncssh
+    rng = random.Random(ctx.rng.getrandbits(64))
+    state = {'salt': 3}
+    cls = make_server_class(state)
+    summary = {}
+    versions = [3, 4, 5, 6] if only is None else [only['version']]
+    for v in versions:
+        srv = os.path.join(tmp, 'srv%d' % v)
+        loc = os.path.join(tmp, 'loc%d' % v)
+        os.makedirs(srv)
+        os.makedirs(loc)
+        listener, conn = await sshutil.loopback(srv_kw={'sftp_factory': (lambda chan, srv=srv: cls(chan, chroot=srv.encode())),
+                                                        'sftp_version': v})
+        try:
+            sftp = await conn.start_sftp_client(sftp_version=v)
+            summary['v%d' % v] = {'negotiated': getattr(sftp, 'version', None), 'ok': 0, 'raised': 0}
+            h = getattr(sftp, '_handler', None)
+            can_force = h is not None and hasattr(h, '_supports_copy_data')
+            combos = [(op, pre) for op in VER_OPS for pre in PRE_KINDS]
+            if only is not None:
+                combos = [(only['op'], only['pre'])]
+            serial = 0
+            for op, pre in combos:
+                if op == 'pcopy' and not can_force:
+                    continue
+                serial += 1
+                size = rng.choice([0, 1, 999, 1000, 1001, 3000])
+                if only is not None:
+                    size = only['size']
+                content = gen_bytes(rng, size)
+                name = 'f%d' % serial
+                src_dir, dst_dir = (srv, loc) if op == 'get' else (loc, srv) if op in ('put', 'open_wb') else (srv, srv)
+                sp, dp = os.path.join(src_dir, name), os.path.join(dst_dir, name + '.dst')
+                with open(sp, 'wb') as f:
+                    f.write(content)
+                old = {'shorter': max(0, size - 7), 'equal': size, 'longer': size + 1500, 'readonly': size + 1500,
+                       'symlink': size + 1500}.get(pre)
+                final = dp           # where the bytes must be afterwards
+                if pre == 'dir':
+                    os.makedirs(dp)
+                    final = os.path.join(dp, name)
+                elif pre == 'symlink':
+                    with open(dp + '.target', 'wb') as f:
+                        f.write(gen_bytes(rng, old))
+                    os.symlink(os.path.basename(dp) + '.target', dp)
+                elif old is not None:
+                    with open(dp, 'wb') as f:
+                        f.write(gen_bytes(rng, old))
+                    if pre == 'readonly':
+                        os.chmod(dp, 0o444)
+                state.update({'cut': None, 'fail_at': None, 'wfail_at': None, 'short': op == 'get', 'async': False,
+                              'failed': False, 'close_fail': None, 'close_failed': 0, 'salt': serial})
+                err = None
+                rdst = '/' + name + '.dst'
+                try:
+                    if op == 'put':
+                        await sftp.put(sp, rdst, block_size=1000, sparse=bool(serial % 2))
+                    elif op == 'get':
+                        await sftp.get('/' + name, dp, block_size=1000, sparse=bool(serial % 2))
+                    elif op == 'copy':
+                        await sftp.copy('/' + name, rdst, block_size=1000, sparse=bool(serial % 2))
+                    elif op == 'pcopy':
+                        h._supports_copy_data = False
+                        try:
+                            await sftp.copy('/' + name, rdst, block_size=1000, sparse=bool(serial % 2))
+                        finally:
+                            h._supports_copy_data = True
+                    else:
+                        async with sftp.open(rdst, 'wb', block_size=1000) as f:
+                            await f.write(content)
+                except (asyncssh.SFTPError, OSError) as e:
+                    err = type(e).__name__
+                got = None
+                try:
+                    if os.path.isfile(final):
+                        with open(final, 'rb') as f:
+                            got = f.read()
+                except OSError:
+                    pass
+                summary['v%d' % v]['raised' if err else 'ok'] += 1
+                ctx.count('e2e.versions.%s' % ('raised' if err else 'ok'))
+                ctx.note_case(('versions', v, op, pre, size), nontrivial=pre != 'absent')
+                if err is None and got != content:
+                    if got is not None and got[:len(content)] == content:
+                        how = f'the source bytes followed by {len(got) - len(content)} stale bytes'
+                    else:
+                        how = f'{None if got is None else len(got)} bytes differing from the source'
+                    ctx.failing_input(f'SFTP version {v}: {op} of {size} bytes onto a destination that already existed ({pre}'
+                                      + (f', {old} bytes' if old is not None else '') + f') returned normally but it holds {how}',
+                                      {'kind': 'e2e_versions', 'spec': {'version': v, 'op': op, 'pre': pre, 'size': size}})
+                for pth in (sp, dp, dp + '.target'):
+                    try:
+                        if os.path.isdir(pth) and not os.path.islink(pth):
+                            shutil.rmtree(pth)
+                        else:
+                            os.remove(pth)
+                    except OSError:
+                        pass
+        finally:
+            conn.close()
+            listener.close()
+            await listener.wait_closed()
+    if only is None:
+        ctx.cov['oracle']['e2e_versions'] = summary
+        for v in versions:
+            sv = summary['v%d' % v]
+            if sv['negotiated'] != v:
+                ctx.broke('vacuity:e2e-versions', f'SFTP version {v} was asked for, {sv["negotiated"]} negotiated')
+            if sv['ok'] < 15:
+                ctx.broke('vacuity:e2e-versions', f'only {sv["ok"]} transfers returned normally with SFTP version {v}')
+
+
+def stage_versions(ctx, only=None):
+    tmp = os.path.realpath(tempfile.mkdtemp(prefix='c12v-', dir='/var/tmp'))
+    try:
+        sshutil.run(e2e_versions(ctx, tmp, only))
+    finally:
+        shutil.rmtree(tmp, ignore_errors=True)
+
+
 def stage_e2e(ctx, replay=None):
     tmp = os.path.realpath(tempfile.mkdtemp(prefix='c12e-', dir='/var/tmp'))
     try:
@@ -1468,7 +1805,12 @@ def run(ctx):
         'recursive driver: get/put/copy -r and mget/mput/mcopy with glob patterns of a tree with nested and empty '
         'directories, empty files, files at block boundaries, symlinks to a large file, to a directory and upwards, for '
         'follow_symlinks x preserve x sparse, destination tree compared byte for byte (links as links unless followed), and '
-        'the total_bytes each file copier was given compared with the model (copy_total). A case '
+        'the total_bytes each file copier was given compared with the model (copy_total); the ranges request/reply loop with the '
+        'real server handler (128 ranges per reply) for 0, 1, 2, 127, 128, 129, 255, 256, 257, 384, 385, 513 data extents from '
+        'offset 0, from every continuation point and from arbitrary offsets, and real sparse files with 257 and 385 extents '
+        '(get and server-to-server copy without copy-data); SFTPServer.open for all 64 pflags and open56 for every '
+        'disposition x access on an absent, empty and non-empty file; get/put/copy/copy without copy-data/open(wb)+write for '
+        'every SFTP version 3..6 onto destinations that are absent, shorter, equal, longer, read-only, a directory, a symlink. A case '
         'is non-trivial when its schedule has >= 2 completions (>= 3 operations for file objects); distinct = distinct '
         '(geometry, schedule shape) tuples')
     ctx.cov['trusted_base'] += [
@@ -1485,6 +1827,9 @@ def run(ctx):
         'SFTPClient._copy/_begin_copy/SFTPGlob are modelled only in how total_bytes is chosen (copy_total, theorem '
         'C12_copy_total); directory walking, globbing and attribute preservation are covered by the tree oracle only; the '
         'total_bytes observation wraps the private class _SFTPFileCopier and is marked unavailable if that is gone',
+        'os.open semantics for regular files are modelled as posix_open (O_EXCL only with O_CREAT; O_TRUNC empties); the '
+        'disposition tables are tied by calling the real SFTPServer.open/open56 on real files; the ranges handler is '
+        'driven through the private SFTPServerHandler._process_ranges (marked unavailable if that is gone)',
         'termination (every honest schedule ends after at most size completions) is observed (no case may get stuck) '
         'but not proved',
         'the copier correspondence accepts either the snapshot model or the repaired-sparse-copy model (c_fix) and '
@@ -1497,9 +1842,12 @@ def run(ctx):
     stage_copier(ctx, 9000 if th else 320)
     stage_exhaustive(ctx, 6000 if th else 120)
     stage_ranges(ctx, 3000 if th else 150)
+    stage_server_ranges(ctx)
+    stage_open(ctx)
     stage_fileobj(ctx, 6000 if th else 220)
     stage_e2e(ctx)
     stage_tree(ctx)
+    stage_versions(ctx)
 
 
 def replay(rp):
@@ -1536,7 +1884,33 @@ def replay(rp):
             got, _ = sshutil.run(real_client_ranges(ext, rp['size'], rp['K']))
             full = sshutil.run(D.real_request_ranges(ext, rp['size'], 0, rp['size']))
             bad = None if got == full else f'{got} vs {full}'
-    elif kind in ('e2e_sparse', 'e2e_transfer', 'e2e_fileobj', 'e2e_tree'):
+    elif kind == 'server_ranges':
+        from asyncssh import sftp
+        ext = [tuple(e) for e in rp['extents']]
+        call = real_server_handler()
+        f = sftp.SFTPClientFile(ServerRangesHandler(call, ext, rp['size']), b'h', False, None, 'strict', 0, 1)
+
+        async def collect():
+            return [(int(a), int(b)) async for a, b in f.request_ranges(rp['off'], rp['size'] - rp['off'])]
+        got = sshutil.run(collect())
+        want = sshutil.run(D.real_request_ranges(ext, rp['size'], rp['off'], rp['size'] - rp['off']))
+        bad = None if got == want else f'{len(got)} ranges returned, the file has {len(want)}'
+    elif kind == 'open_disposition':
+        import asyncssh
+        tmp = tempfile.mkdtemp(prefix='c12o-', dir='/var/tmp')
+        try:
+            path = os.path.join(tmp, 'f').encode()
+            with open(path, 'wb') as f:
+                f.write(b'stale tail')
+            srv = asyncssh.SFTPServer(_StubChan())
+            fo = srv.open(path, rp['pflags'], asyncssh.SFTPAttrs()) if rp['api'] == 'open' else \
+                srv.open56(path, rp['access'], rp['flags'], asyncssh.SFTPAttrs())
+            fo.close()
+            got = open(path, 'rb').read()
+            bad = None if got == b'' else f'file opened for "wb" still holds {got!r}'
+        finally:
+            shutil.rmtree(tmp, ignore_errors=True)
+    elif kind in ('e2e_sparse', 'e2e_transfer', 'e2e_fileobj', 'e2e_tree', 'e2e_versions'):
         bad = replay_e2e(rp)
     else:
         print('unknown replay kind', kind)
@@ -1573,6 +1947,9 @@ def replay_e2e(rp):
         return out.get('bad')
     if rp['kind'] == 'e2e_sparse':
         return sshutil.run(replay_sparse(rp))
+    if rp['kind'] == 'e2e_versions':
+        stage_versions(ctx, only=rp['spec'])
+        return out.get('bad')
     if rp['kind'] == 'e2e_tree':
         stage_tree(ctx, only=rp['spec'])
         return out.get('bad')
@@ -1602,10 +1979,15 @@ async def replay_sparse(rp):
                 await sftp.get('/f', dp, sparse=True)
             elif op == 'put':
                 await sftp.put(sp, '/f.out', sparse=True)
+            elif op == 'pcopy':
+                h = getattr(sftp, '_handler', None)
+                if h is not None and hasattr(h, '_supports_copy_data'):
+                    h._supports_copy_data = False
+                await sftp.copy('/f', '/f.out', sparse=True, block_size=16384)
             else:
                 await sftp.copy('/f', '/f.out', sparse=True)
             got = open(dp, 'rb').read()
-            return None if got == content else f'destination has {len(got)} bytes, source {len(content)}'
+            return None if got == content else f'destination ({len(got)} bytes) differs from the source ({len(content)} bytes)'
         finally:
             conn.close()
             listener.close()
